@@ -1009,6 +1009,14 @@ func triggerRevived(w *World, v Violation) string {
 	if revokedInFlight(c, v.RID, v.T) {
 		return "revoke-in-flight"
 	}
+	// (a divergence found at quiescence carries the time of the copy's handover)
+	bound := v.T
+	if v.Class == "diverged" {
+		bound = -1
+	}
+	if heldThroughRevokedInFlight(w, c, v.RID, bound) {
+		return "revoke-in-flight"
+	}
 	delT := -1
 	name, _ := w.expandRID(c, v.RID)
 	for _, e := range w.Log() {
@@ -1283,6 +1291,52 @@ func failedRefetchDropsEvents(w *World, name string) bool {
 
 // revokedInFlight: an unsubscribe event for the rid was sent to the connection
 // before t while subscribe/get (or call/auth/new) requests for it were in flight.
+// heldThroughRevokedInFlight: the same history seen from a resource below the
+// revoked one. A subscribe (or resource request) for some rid was in flight
+// when the connection's direct subscriptions to that rid were dropped, and it
+// was answered successfully afterwards: the client counts a direct
+// subscription the gateway does not have, and keeps everything that rid
+// references while the gateway may have released it.
+func heldThroughRevokedInFlight(w *World, c *Client, rid string, t int) bool {
+	tname, _ := splitRID(strings.Replace(rid, "{cid}", c.CID, -1))
+	var g map[string]map[string]bool
+	for _, ev := range c.Ref.Events {
+		if ev.Event != "unsubscribe" || (t >= 0 && ev.T > t) {
+			continue
+		}
+		for _, id := range c.Ref.ReqOrder {
+			q := c.Ref.Reqs[id]
+			if q.SentT >= ev.T || q.Resp == 0 || q.RespT < ev.T || (t >= 0 && q.RespT > t) || q.IsError {
+				continue
+			}
+			if !((q.RID == ev.RID && q.Action == "subscribe") || q.ResRID == ev.RID) {
+				continue
+			}
+			if g == nil {
+				g = everReferenced(w)
+			}
+			rname, _ := splitRID(strings.Replace(ev.RID, "{cid}", c.CID, -1))
+			seen := map[string]bool{rname: true}
+			stack := []string{rname}
+			for len(stack) > 0 {
+				n := stack[len(stack)-1]
+				stack = stack[:len(stack)-1]
+				if n == tname {
+					return true
+				}
+				for m := range g[n] {
+					m = strings.Replace(m, "{cid}", c.CID, -1)
+					if !seen[m] {
+						seen[m] = true
+						stack = append(stack, m)
+					}
+				}
+			}
+		}
+	}
+	return false
+}
+
 func revokedInFlight(c *Client, rid string, t int) bool {
 	for _, ev := range c.Ref.Events {
 		if ev.RID != rid || ev.Event != "unsubscribe" || ev.T > t {
